@@ -99,7 +99,7 @@ func run(sum *lib.Summary) {
 	g := &gen{rng: rng}
 	n := 1500
 	if *tier == "thorough" {
-		n = 20000
+		n = 12000
 	}
 	sum.Rule = "parameter types from a type generator (26 primitive types incl. the numeric and path supertypes, AnyStruct, HashableStruct; " +
 		"optionals, variable/constant arrays, dictionaries, 4 struct types with nested fields, interface intersections, capability types; " +
